@@ -206,9 +206,25 @@ def execute(case):
     obs['plain'] = attempt(lambda: mod.prog_plain(a))
     obs['direct'] = attempt(lambda: mod.prog(a))
     del targets.LOG[:]
+    req = None
     try:
       cfg = mod.prog.as_buildable(a)
       obs['as_buildable_invocations'] = len(targets.LOG)
+      # model correspondence: the source text read as a program of Model/Codegen.lean (every
+      # configurable call = one new node) must produce the DAG as_buildable produced
+      from harness import codeparse
+      from harness.props import C07
+      try:
+        req = codeparse.program_of(src, dict(mod.__dict__), auto=True, entry='prog', args={'a': a, 'b': 3},
+                                   opaque_calls=('inner_inline', 'inner_opaque', 'plain_helper', 'helper'))
+        enc_req, _enc = graphs.encode(cfg, with_defaults=False, atom_pred=codeparse.leaf_atom_pred)
+        obs['m_input'] = codeparse.canon_heap([C07.project_obj(o) for o in enc_req['objs']], enc_req['root'])
+      except codeparse.Unsupported as e:
+        obs['m_unsupported'] = str(e)[:100]
+        req = None
+      except Exception as e:
+        obs['m_unsupported'] = f'encode: {type(e).__name__}'
+        req = None
       b1 = fdl.build(cfg)
       obs['built'] = canon(b1)
       # two builds never share configurable objects (live objects embedded in the config would)
@@ -222,7 +238,7 @@ def execute(case):
   finally:
     sys.modules.pop(name, None)
     shutil.rmtree(d, ignore_errors=True)
-  return obs, None
+  return obs, req
 
 
 def _recs(v):
@@ -252,6 +268,14 @@ def _recs(v):
 
 
 def compare(real, model):
+  if model is None or 'm_input' not in real:
+    return []
+  from harness import codeparse
+  if model.get('run') != 'ok':
+    return [('executing the program in the model', 'ran', model.get('run'))]
+  got = codeparse.canon_heap(model['heap'], model['root'])
+  if got != real['m_input']:
+    return [('DAG produced by as_buildable vs the model reading of the source', real['m_input'], got)]
   return []
 
 
